@@ -175,7 +175,7 @@ class UnboundStepwise(object):
         else:
             return partial(self.add, supply=supply)
 
-    def s(self, *args, **kwargs) -> Partial[Stepwise]:
+    def s(self, /, *args, **kwargs) -> Partial[Stepwise]:
         """
         Create an unbound prototype of this class, partially applying arguments
 
